@@ -96,6 +96,7 @@ func sampleValues(r interface{ Intn(int) int }, p *big.Int) []any {
 // scenario: everything a caller derives from a configured merklizer
 func (d *drv) scenario(in c02.Input) *c02.Scen {
 	e := d.e
+	defer e.LocalRng(in.RngSeed)()
 	s := e.NewScen(in)
 	defer e.Close(s)
 	if s.Out.Class != "ok" || s.NoCoq != "" {
@@ -278,7 +279,7 @@ func boundaryDocs(p *big.Int) []struct {
 func (d *drv) boundary(hi int, sh *c02.Shards) {
 	p := c02.Families()[hi].Prime()
 	for _, bd := range boundaryDocs(p) {
-		in := c02.Input{Doc: bd.Doc, Hasher: hi, Cfg: true, DSLevel: true}
+		in := c02.Input{Doc: bd.Doc, Hasher: hi, Cfg: true, DSLevel: true, RngSeed: d.cfg.Rng.Int63()}
 		d.rep.Distinct(fmt.Sprintf("%s|%d|b", bd.Doc, hi))
 		d.rep.Count("boundary")
 		s := d.scenario(in)
@@ -297,6 +298,13 @@ func Run(cfg *common.Config) (*common.Report, error) {
 	d := &drv{e: e, rep: rep, cfg: cfg}
 	sh := &c02.Shards{Env: e, Size: 10}
 	if cfg.Replay != "" {
+		if sin, ok := c02.ReadSharedReplay(cfg, e.Loader); ok {
+			if s := e.SharedScenario(sin); s != nil {
+				fmt.Printf("replay: shared-tree scenario, %d documents, %d merklizers\n", len(sin.Docs), len(s.Mzs))
+				sh.AddCase(s)
+			}
+			return rep, sh.Write("C16")
+		}
 		in, err := c02.ReadReplay(cfg, e.Loader)
 		if err != nil {
 			return nil, err
@@ -320,7 +328,7 @@ func Run(cfg *common.Config) (*common.Report, error) {
 				all[u] = string(b)
 			}
 		}
-		in := c02.Input{Doc: doc.Bytes, Ctx: all, Hasher: i % nfam, Cfg: i%10 != 9, DSLevel: i%5 == 0}
+		in := c02.Input{Doc: doc.Bytes, Ctx: all, Hasher: i % nfam, Cfg: i%10 != 9, DSLevel: i%5 == 0, RngSeed: cfg.Rng.Int63()}
 		for li, lf := range doc.Leaves {
 			if li < 6 {
 				in.DocPaths = append(in.DocPaths, strings.Join(lf.DocPath, "."))
@@ -342,6 +350,25 @@ func Run(cfg *common.Config) (*common.Report, error) {
 	for hi := 0; hi < nfam; hi++ {
 		if cfg.Thorough() || hi == 0 || hi >= 4 || hi == 2 {
 			d.boundary(hi, sh)
+		}
+	}
+	// several configured merklizers on one caller-provided tree (every hasher family)
+	for i := 0; i < cfg.Pick(nfam, 10*nfam); i++ {
+		sin := c02.SharedInput{Shared: true, Hasher: i % nfam, Cfg: true, Ctx: map[string]string{}, RngSeed: cfg.Rng.Int63()}
+		doc := g.Valid(1 + cfg.Rng.Intn(2))
+		for u, b := range g.CtxURLs {
+			if e.Loader.Raw(u) == nil {
+				_ = e.Loader.Add(u, b)
+			}
+			if bytes.Contains(doc.Bytes, []byte(u)) {
+				sin.Ctx[u] = string(b)
+			}
+		}
+		sin.Docs = append(sin.Docs, doc.Bytes, c02.DisjointDoc(cfg.Rng, fmt.Sprintf("c16s%d", i)))
+		rep.Distinct(fmt.Sprintf("shared|%s|%d", sin.Docs, sin.Hasher))
+		rep.Count("shared-scenario")
+		if s := e.SharedScenario(sin); s != nil {
+			sh.AddCase(s)
 		}
 	}
 	_ = mzrun.Outcome{}
